@@ -80,6 +80,18 @@ def clause(facts, rep, tier, which=None, negatives=True):
         for g in (0, 3, V - 1, V, V + 3):
             body = 'é中'.encode() + plain(g) + b'\\n' + '\U0001F600'.encode() * 3 + plain(g, 5)
             cases.append((body, body.replace(b'\\n', b'\n')))
+        # every byte value directly after a backslash: the eight single-character escapes decode, 'u' is covered above,
+        # the other 247 values (incl. 0x80..0xFF: the lookup must not alias them onto ASCII) are rejected
+        one = {b'"'[0]: b'"', b'\\'[0]: b'\\', b'/'[0]: b'/', b'b'[0]: b'\b', b'f'[0]: b'\f', b'n'[0]: b'\n', b'r'[0]: b'\r', b't'[0]: b'\t'}
+        for h in (0, V - 1):
+            for b in range(256):
+                if b == b'u'[0]:
+                    continue
+                body = plain(h) + b'\\' + bytes([b]) + b'xy'
+                if b in one:
+                    cases.append((body, plain(h) + one[b] + b'xy'))
+                elif negatives:
+                    cases.append((body, None))
         if negatives:
             for h in ((0, 3, V - 1, V, V + 2) if not full else range(0, 2 * V + 2)):
                 for bd in BAD:
